@@ -40,6 +40,9 @@ structure AttrD where
   optional : Bool
   derived : Bool := false
   typeRef : Bool := false
+  /-- the position is redeclared by the entity at hand (`_redefAttr` set): the read is forwarded to the redefining
+      attribute, which has the narrower type described by the other fields -/
+  redef : Bool := false
   deriving DecidableEq, Repr, Inhabited
 
 /-- what stands at an attribute position in the file -/
@@ -153,8 +156,8 @@ def fillerFor (k : Kind) : Option (String × String × String) :=
 def fillerKey (a : AttrD) : Option Kind :=
   if fillerDispatch = "Type" && a.typeRef then none else some a.kind
 
-/-- `STEPattribute::STEPread`: (severity left in the attribute's error, value stored) -/
-def attrRead (strict : Bool) (a : AttrD) (t : Tok) : Sev × Val :=
+/-- `STEPattribute::STEPread` of an attribute that is not forwarded: (severity left in its error, value stored) -/
+def attrReadOwn (strict : Bool) (a : AttrD) (t : Tok) : Sev × Val :=
   if a.derived then
     match t with
     | .star => (sevDerivedOk, .derived)
@@ -175,6 +178,15 @@ def attrRead (strict : Bool) (a : AttrD) (t : Tok) : Sev × Val :=
       else (sevStrictMissing, .null)
     | .star => (.warning, .null)       -- not a pre-check case; the literal readers reject `*` (not used by C15's inputs)
     | .lit v s => (s, v)
+
+/-- `STEPattribute::STEPread`: a redeclared position forwards to its redefining attribute FIRST (before the derived and
+    the null checks), handing it `redefStrict`; the instance then looks at the error of the redeclared position itself,
+    which carries what the redefining attribute found only when `redefReportsError` -/
+def attrRead (strict : Bool) (a : AttrD) (t : Tok) : Sev × Val :=
+  if a.redef then
+    let r := attrReadOwn (match redefStrict with | none => strict | some b => b) { a with redef := false, derived := false } t
+    if redefReportsError then r else (.null, r.2)
+  else attrReadOwn strict a t
 
 /-- merge step of `SDAI_Application_instance::STEPread` -/
 def mergeAttr (acc s : Sev) : Sev := if s.le sevAttrMergeThreshold then Sev.greater acc s else acc
